@@ -31,11 +31,11 @@ type prioStep struct {
 }
 
 type prioCase struct {
-	ID  int        `json:"id"`
-	Pre *prioSnap  `json:"pre,omitempty"` // single transition: pre/op/post
-	Op  *prioOp    `json:"op,omitempty"`
-	Post *prioSnap `json:"post,omitempty"`
-	Ops []prioStep `json:"ops,omitempty"` // history from the initial state
+	ID   int        `json:"id"`
+	Pre  *prioSnap  `json:"pre,omitempty"` // single transition: pre/op/post
+	Op   *prioOp    `json:"op,omitempty"`
+	Post *prioSnap  `json:"post,omitempty"`
+	Ops  []prioStep `json:"ops,omitempty"` // history from the initial state
 }
 
 func prioApply(t *bfe_http2.VerifH2libTree, op prioOp) (sig string, detail string) {
@@ -131,7 +131,7 @@ func prioRun() {
 			} else {
 				res.Drift = drift
 			}
-			vh.Emit(res)
+			emitRes(res)
 			return
 		}
 		t := bfe_http2.VerifH2libNewTree()
@@ -154,6 +154,6 @@ func prioRun() {
 				break
 			}
 		}
-		vh.Emit(res)
+		emitRes(res)
 	})
 }
